@@ -25,6 +25,9 @@
  *   tall                                one server look at every registered descriptor
  *   inject <slot> <victim>              the slot's client (any local process) sends a well-formed request datagram to the
  *                                       victim connection's request address, if it can find one (socket transport)
+ *   failnext <k> <errno>                the k-th creating / mode- or owner-changing call from now on (open O_CREAT, mkdtemp,
+ *                                       chmod, chown) fails with errno without being executed
+ *   respond 0|1                         msg_process answers each request with qb_ipcs_response_send (default: no)
  *   kill <slot>                         SIGKILL the client (nothing is tidied up on its side)
  *   end                                 kill all clients, let the server notice, destroy the service, census
  *
@@ -241,6 +244,15 @@ static void logsys(const char *fmt, ...)
 #define ACTIVE() (logging && getpid() == server_pid)
 #define RES(r) ((r) < 0 ? ename(errno) : "0")   /* "-<errno>" */
 
+/* fault injection: the fail_at-th wrapped creating/changing call from now on fails with fail_errno (not executed) */
+static int fail_at = 0, fail_errno = 0;
+static int should_fail(const char *path)
+{
+	if (!ACTIVE() || !relevant(path) || fail_at <= 0) return 0;
+	if (--fail_at == 0) return 1;
+	return 0;
+}
+
 static int fd_path(int fd, char *out, size_t n)
 {
 	char p[64];
@@ -260,6 +272,13 @@ int __wrap_open(const char *path, int flags, ...)
 	int r;
 	if (flags & (O_CREAT | O_TMPFILE)) {
 		va_list ap; va_start(ap, flags); mode = va_arg(ap, mode_t); va_end(ap);
+	}
+	if ((flags & O_CREAT) && should_fail(path)) {
+		char c[300];
+		canon_path(path, c, sizeof c);
+		logsys("open %s injected-failure = -%d", c, fail_errno);
+		errno = fail_errno;
+		return -1;
 	}
 	r = __real_open(path, flags, mode);
 	if (ACTIVE() && (flags & O_CREAT) && relevant(path)) {
@@ -310,6 +329,11 @@ char *__wrap_mkdtemp(char *tmpl)
 	char before[300];
 	char *r;
 	snprintf(before, sizeof before, "%s", tmpl);
+	if (should_fail(tmpl)) {
+		logsys("mkdtemp ? injected-failure = -%d", fail_errno);
+		errno = fail_errno;
+		return NULL;
+	}
 	r = __real_mkdtemp(tmpl);
 	if (ACTIVE() && relevant(before)) {
 		int e = errno;
@@ -351,7 +375,15 @@ int __wrap_mkdir(const char *path, mode_t mode)
 	int __real_##name decl;                                                   \
 	int __wrap_##name decl                                                    \
 	{                                                                         \
-		int r = __real_##name call;                                       \
+		int r;                                                            \
+		if ((#name[0] == 'c') && should_fail(path)) {                     \
+			char c[300];                                              \
+			canon_path(path, c, sizeof c);                            \
+			logsys(#name " %s injected-failure = -%d", c, fail_errno); \
+			errno = fail_errno;                                       \
+			return -1;                                                \
+		}                                                                 \
+		r = __real_##name call;                                           \
 		if (ACTIVE() && relevant(path)) {                                 \
 			char c[300]; int e = errno;                               \
 			canon_path(path, c, sizeof c);                            \
@@ -562,6 +594,7 @@ static int ord_of(qb_ipcs_connection_t *c)
 	return -1;
 }
 
+static int respond_on = 0;
 static int32_t cb_accept(qb_ipcs_connection_t *c, uid_t uid, gid_t gid)
 {
 	int ord = ndirs - 1;
@@ -579,6 +612,12 @@ static void cb_created(qb_ipcs_connection_t *c) { printf("cb created %d\n", ord_
 static int32_t cb_msg(qb_ipcs_connection_t *c, void *data, size_t size)
 {
 	printf("cb msg %d\n", ord_of(c));
+	if (respond_on) {
+		/* the first response makes the server connect() its datagram socket to the client's address */
+		struct qb_ipc_response_header rh;
+		rh.id = 0; rh.size = sizeof rh; rh.error = 0;
+		printf("responded %d %s\n", ord_of(c), qb_ipcs_response_send(c, &rh, sizeof rh) == (ssize_t)sizeof rh ? "ok" : "fail");
+	}
 	return 0;
 }
 static int32_t cb_closed(qb_ipcs_connection_t *c) { printf("cb closed %d\n", ord_of(c)); return 0; }
@@ -827,6 +866,8 @@ static void teardown(int print)
 	memset(conn_ptr, 0, sizeof conn_ptr);
 	memset(cl, 0, sizeof cl);
 	umask(022);
+	respond_on = 0;
+	fail_at = 0;
 }
 
 /* ------------------------------------------------------------------ main */
@@ -938,6 +979,10 @@ int main(void)
 				run_jobs();
 			}
 			printf("chan %d\n", chan_count());
+		} else if (sscanf(line, "failnext %d %d", &x1, &x2) == 2) {
+			fail_at = x1; fail_errno = x2;
+		} else if (sscanf(line, "respond %d", &x1) == 1) {
+			respond_on = x1;
 		} else if (sscanf(line, "inject %d %d", &s, &x1) == 2 && s >= 0 && s < MAXS && x1 >= 0 && x1 < MAXS) {
 			int rc, vp = (int)cl[x1].pid;
 			if (!cl[s].alive) { printf("injected %d dead\n", s); continue; }
